@@ -8,11 +8,23 @@
 (*                                                                            *)
 (* Environment: the notifier puts the signals of `script` into the channel    *)
 (* one by one (Send; a send waits for room), every service i has a fixed      *)
-(* outcome[i] of its Shutdown call: "nil", "err" or "panic".                  *)
+(* outcome[i] of its Shutdown call.  An outcome is a KIND: "nil", or the kind *)
+(* of error returned ("err" plain, "deadline" = context.DeadlineExceeded,     *)
+(* "canceled", their %w-wrapped forms, an errors.Join, io.EOF, ...), or the   *)
+(* kind of value the service panics with ("panic" string, "panicerr" error    *)
+(* value, "panicdl" = panic(context.DeadlineExceeded), "panicnil" =           *)
+(* panic(nil)).  The kind is data the code might be tempted to inspect; what  *)
+(* C18 requires does not depend on it: anything but "nil" is a failure and    *)
+(* nothing stops the loop.  TLC enumerates the kinds as an environment        *)
+(* choice: all vectors over Outcomes up to FullUpTo services, and for more    *)
+(* services vectors over PlainKinds plus one other kind at a time.            *)
 EXTENDS Integers, Sequences, FiniteSets
 
 CONSTANTS MaxServices,   \* services 0..MaxServices are registered
-          Outcomes,      \* {"nil", "err", "panic"}
+          Outcomes,      \* outcome kinds, "nil" among them
+          PlainKinds,    \* the kinds used freely for any number of services, e.g. {"nil", "err", "panic"}
+          FullUpTo,      \* up to this many services every vector over Outcomes is enumerated
+          PanicKinds,    \* the kinds that are panics
           OtherSigs,     \* signals that are not shutdown signals
           ShutSigs,      \* SIGINT, SIGQUIT, SIGTERM
           MaxPre,        \* at most this many non-shutdown signals before the shutdown signal
@@ -44,7 +56,10 @@ SNew(k, oc) ==
     /\ sent = 0 /\ chan = <<>> /\ phase = "waiting" /\ idx = 0 /\ failed = FALSE
     /\ calls = [i \in 1..k |-> 0] /\ order = <<>> /\ status = -1
 
-SInit == /\ \E k \in 0..MaxServices : \E oc \in [1..k -> Outcomes] : SNew(k, oc)
+KindVectors(k) == {oc \in [1..k -> Outcomes] :
+                      k <= FullUpTo \/ Cardinality({oc[i] : i \in 1..k} \ PlainKinds) <= 1}
+
+SInit == /\ \E k \in 0..MaxServices : \E oc \in KindVectors(k) : SNew(k, oc)
          /\ script \in Scripts
 
 (* The notifier relays a signal into the channel (waits for room). *)
@@ -70,7 +85,7 @@ ShutdownOne(i) ==
     /\ phase = "shutting" /\ idx >= 1 /\ i = idx
     /\ calls' = [calls EXCEPT ![i] = @ + 1]
     /\ order' = Append(order, i)
-    /\ IF PanicAborts /\ outcome[i] = "panic"
+    /\ IF PanicAborts /\ outcome[i] \in PanicKinds
          THEN \* before b5e2710: the deferred recover in Handle swallows the panic
               /\ phase' = "returned" /\ status' = 0 /\ idx' = 0 /\ UNCHANGED failed
          ELSE /\ failed' = (failed \/ outcome[i] # "nil")
